@@ -114,7 +114,8 @@ def run_case(case, ctx):
             return
         ctx.check(True, 'completes', '', '')
         total = float(model.total)
-        info = dict(oracle=oracle, iters=iters, last_internal_loss=(seen[-1] if seen else None))
+        info = dict(oracle=oracle, iters=iters, last_internal_loss=(seen[-1] if seen else None),
+                    min_internal_loss=(min(seen) if seen else None))
         # tables for every measured clique
         bad = None
         for Q, y, s, proj in plain:
@@ -191,7 +192,7 @@ def _f10(case, failure):
     return failure['kind'] == 'worse_than_uniform' and last <= fu * (1 + 1e-9) + 1e-12
 
 
-FINDINGS = {'F10': _f10}
+FINDINGS = {'F10': _f10}  # F14 (repeated cliques in FactorGraph) was repaired in /repo (b8597f6); its witness is a regression case
 
 
 def fixed_cases(tier):
@@ -208,6 +209,12 @@ def fixed_cases(tier):
     w = dict(attrs=attrs, shape=shape, meas=mk(7), structure='cyclic', N=100.0, oracle='convex', exact=False, iters=1, total=100.0,
              spellings=['dense'] * 3, np_seed=7)
     out.append(('witness:F10', w))
+    import os
+    import pickle
+    wp = os.path.join(os.path.dirname(os.path.dirname(os.path.dirname(os.path.abspath(__file__)))), 'witnesses', 'C18_F14.pkl')
+    if os.path.exists(wp):
+        with open(wp, 'rb') as f:
+            out.append(('fixed:F14', pickle.load(f)))
     return out
 
 
